@@ -117,8 +117,18 @@ def check_model(ck, m, label, stats):
                     # every Drop of the guard local happens after the vtable call has returned
                     after = mir.dominated(ob, oi.icalls[0][1]["t"]) if oi.icalls[0][1]["t"] is not None else set()
                     drops = [i for i in sorted(ob.live_blocks()) if ob.blocks[i]["t"]["k"] == "drop" and ob.blocks[i]["t"]["p"]["l"] == gl and not ob.blocks[i]["t"]["p"]["p"]]
-                    moved = any(("m" in a and a["m"]["l"] == gl and not a["m"]["p"]) for _, t in ob.calls() for a in t["args"])
-                    ok = bool(drops) and all(d in after for d in drops) and not moved
+                    # the guard may also be released explicitly: moved into `mem::drop(guard)` after the call has returned (its only move)
+                    moves = [(i, t) for i, t in ob.calls() for a in t["args"] if "m" in a and a["m"]["l"] == gl and not a["m"]["p"]]
+                    explicit = [i for i, t in moves if (mir.callee_path(t) or "") in ("std::mem::drop", "core::mem::drop")]
+                    moved = len(moves) != len(explicit)
+                    # ... possibly through a temporary: any mem::drop whose argument is the value produced by the guard's clone call
+                    for i, t in ob.calls():
+                        if (mir.callee_path(t) or "") in ("std::mem::drop", "core::mem::drop") and i not in explicit:
+                            ao = ob.origin_operand(t["args"][0])
+                            if ao[0] == "call" and ao[1] == CLONE and len(ao) > 3 and ao[3] == guards[0][0]:
+                                explicit.append(i)
+                    release_sites = drops + explicit
+                    ok = bool(release_sites) and all(d in after for d in release_sites) and not moved
                     detail = "drops at blocks %s, blocks after the call %s, moved=%s" % (drops, sorted(after)[:8], moved)
                 ck.ob("K3-context-guard-spans-consuming-call", "%s/%s.%s" % (label, g.vtbl_path, name), ok,
                       "opaque impl %s (by-value self): a clone of the container's context must be taken before the vtable call and dropped only after it returns (%d guards; %s)" % (of["path"], len(guards), detail),
